@@ -20,7 +20,8 @@ def expected_values(op):
     m = effective_n(op)
     if op.get('input') == 'nd':
         return {'nd': [[i * 3 + 1, 2 * i * 3 + 1] for i in range(m)]}
-    return [value_of(i) for i in range(m)]
+    from harness.detsim.scenario import ret_of
+    return [ret_of(op, i) for i in range(m)]
 
 
 def spec_sizes(n_tasks, chunk_size, n_splits, n_jobs, default_div=64):
